@@ -122,6 +122,32 @@ def lits_for(rnd, signed, n, f, radix, count):
                     if len(sf) > 1:
                         emit(False, si, sf[:-1])
                     emit(False, si, sf + "0" * 25 + "1")
+    # directed block (decimal, 128-bit words only): the decimal fraction path accumulates the digits in two 27-digit
+    # limbs and combines them as hi*10^27 + lo in 256 bits.  A carry out of the low 128-bit limb of that sum needs
+    # (hi*10^27 mod 2^128) + lo >= 2^128, which random / tie-derived literals meet with p ~ 2^-39 (the reach audit
+    # showed the carry branch unexecuted; three independent seeded changes C08-E, C09-E, C11-E sit exactly there).
+    # hi is solved from hi*5^27 = -t (mod 2^101) with small t; lo is placed just below / at / above the threshold.
+    if radix == 10 and n == 128 and f >= 65:
+        inv = pow(5 ** 27, -1, 1 << 101)
+        made = 0
+        tries = 0
+        while made < 6 and tries < 200000:
+            tries += 1
+            t = rnd.randrange(1, 5 ** 27)
+            hi = (-t * inv) % (1 << 101)
+            if hi >= 10 ** 27 or hi < 10 ** 26:
+                continue
+            r = (hi * 10 ** 27) % (1 << 128)
+            thr = (1 << 128) - r          # lo >= thr carries
+            if thr >= 10 ** 27:
+                continue
+            for lo in (thr - 1, thr, thr + 1, rnd.randrange(thr, 10 ** 27), thr - rnd.randrange(1, max(2, thr))):
+                if 0 <= lo < 10 ** 27:
+                    frac = "%027d%027d" % (hi, lo)
+                    ip = rnd.choice(("0", "", "1")) if f < 128 else rnd.choice(("0", ""))
+                    emit(rnd.random() < 0.3 and signed, ip, frac)
+                    emit(False, ip, frac.rstrip("0") + rnd.choice(("", "5", "0001")))
+            made += 1
     for _ in range(count):
         c = rnd.randrange(100)
         # pick a raw grid value R
@@ -211,10 +237,20 @@ def main():
     lists.update(gen_layouts.chunks())
     lays = lists[chunk]
     w = sys.stdout.write
+    exhaustive = a.get("--exhaustive", "0") == "1"
     for idx, (signed, n, f) in enumerate(lays):
         if idx % nsh != sh:
             continue
         name = "%s%d.%d" % ("i" if signed else "u", n, f)
+        if exhaustive and n == 8:
+            # every decimal literal [-]I.F with F of 1..4 digits and I at 0 / the largest integer / one beyond
+            imax = ((1 << (n - 1)) - 1 if signed else (1 << n) - 1) >> f
+            for ip in sorted({0, imax, imax + 1}):
+                for sign in ("", "-"):
+                    for nd in (1, 2, 3, 4):
+                        for v in range(10 ** nd):
+                            lit = "%s%d.%0*d" % (sign, ip, nd, v)
+                            w("ps %s a %s\n" % (name, lit.encode().hex()))
         for radix in (10, 2, 8, 16):
             rnd = random.Random("%d/%s/%d" % (seed, name, radix))
             cnt = count if radix == 10 else max(1, count // 3)
